@@ -42,6 +42,238 @@ class Roles:
     pass
 
 
+def memo_local_rules(fn, r, body, M, what, bad):
+    """memo object: created once, before the loop, a fresh dict, local, never rebound or cleared"""
+    if M is not None:
+        if not (isinstance(M, tuple) and M[0] == 'OBJ'):
+            bad.append(('C07-memo-local', f'{what}: the memo {P.tfmt(M)} is not a local object of the driver'))
+        else:
+            mname = M[1]
+            assigns = []
+            for n in ast.walk(fn):
+                if isinstance(n, ast.Assign):
+                    for t in n.targets:
+                        for x in ast.walk(t):
+                            if isinstance(x, ast.Name) and x.id == mname and isinstance(x.ctx, ast.Store):
+                                assigns.append(n)
+                if isinstance(n, (ast.Global, ast.Nonlocal)) and mname in n.names:
+                    bad.append(('C07-memo-local', f'{what}: memo {mname} is declared global/nonlocal'))
+            if mname in [a.arg for a in fn.args.args + fn.args.kwonlyargs]:
+                bad.append(('C07-memo-local', f'{what}: memo {mname} is a parameter (shared default)'))
+            top = [n for n in fn.body if n in assigns]
+            if len(assigns) != 1 or len(top) != 1:
+                bad.append(('C07-memo-local', f'{what}: memo {mname} is assigned {len(assigns)} times; it must '
+                                              f'be created exactly once per call, outside the loop'))
+            else:
+                a = top[0]
+                fresh = (isinstance(a.value, ast.Dict) and not a.value.keys) or (
+                    isinstance(a.value, ast.Call) and isinstance(a.value.func, ast.Name)
+                    and a.value.func.id == 'dict' and not a.value.args and not a.value.keywords)
+                if not fresh:
+                    bad.append(('C07-memo-local', f'{what}: memo {mname} is not created as a fresh empty dict '
+                                                  f'({ast.unparse(a.value)[:60]})'))
+                if fn.body.index(a) > fn.body.index(r.loop_node):
+                    bad.append(('C07-memo-local', f'{what}: memo {mname} is created after the loop'))
+            for bp in body:
+                for e in bp.events():
+                    if e[1].startswith('call:') and e[2] == M and e[1] in (
+                            'call:clear', 'call:pop', 'call:popitem', 'call:update', 'call:setdefault'):
+                        bad.append(('C07-memo-local', f'{what}: memo is mutated by .{e[1][5:]}() inside the loop'))
+                    if e[1] == 'del' and isinstance(e[2], tuple) and M in list(P.subterms(e[2])):
+                        bad.append(('C07-memo-local', f'{what}: memo entries are deleted inside the loop'))
+
+
+def is_frame(K, Gen, uses_context):
+    """Gen is the generator started for the request K: K[1]([ctx,] text, K[2])"""
+    if isinstance(K, tuple) and K[:1] == ('TUPLE',) and len(K) == 4:
+        f, p = K[2], K[3]
+    else:
+        f, p = ('SUB', K, ('CONST', '1')), ('SUB', K, ('CONST', '2'))
+    want = ('CALL', f) + ((('PARAM', '_ctx'),) if uses_context else ()) + (('PARAM', 'text'), p)
+    return Gen == want
+
+
+def active_outside(fn, r, paths, loop, body, R, G, S, v, CALLC, uses_context, what, bad):
+    """The same rules for a driver that keeps the running frame in two loop-carried variables
+    (key, generator) and only the suspended callers in its list.  Logical stack L = list ++ [active].
+    Expected effect of one iteration on L: completion L[:-1] (and the result stored under the key of
+    the finished frame, handed to the frame below), memo hit L, memo miss L ++ [(request, new
+    generator)]; every frame pairs a request with the generator started for it."""
+    lid = loop[3]
+    gname = G[1]
+    tag = ('SUB', R, ('CONST', '0'))
+    # the key variable: what the completion branch stores the result under
+    keys = set()
+    for bp in body:
+        for e in bp.events('substore'):
+            if e[3] == R and isinstance(e[2], tuple) and e[2][0] == 'SUB':
+                keys.add(e[2][2])
+    if len(keys) != 1 or not (isinstance(next(iter(keys)), tuple) and next(iter(keys))[0] == 'PHI'):
+        bad.append(('C07-memo-store', f'{what}: the finished result is not stored under one loop-carried key '
+                                      f'({[P.tfmt(k) for k in keys]})'))
+        K = next(iter(keys), None)
+    K = next(iter(keys)) if keys else None
+    kname = K[1] if isinstance(K, tuple) and K[0] == 'PHI' else None
+    r.K, r.carried = K, {}
+    KV, GV = ('PHI', kname, lid), ('PHI', gname, lid)
+    # initial frame
+    k0 = g0 = None
+    for p in paths:
+        for st in p.steps:
+            if st[0] == 'LOOP' and st[3] == lid:
+                break
+            if st[0] == 'E' and st[1] == 'assign':
+                if st[2] == kname:
+                    k0 = st[3]
+                if st[2] == gname:
+                    g0 = st[3]
+    r.init = ('LIST', ('TUPLE', k0, g0))
+    if k0 != ('TUPLE', CALLC, ('PARAM', 'start'), ('PARAM', 'pos')):
+        bad.append(('C07-memo-key', f'{what}: the initial frame is keyed {P.tfmt(k0)}; its key must be (CALL, start, pos)'))
+    if k0 is None or g0 is None or not is_frame(k0, g0, uses_context):
+        bad.append(('C07-memo-key', f'{what}: the initial generator {P.tfmt(g0)} is not the one started for the '
+                                    f'initial key {P.tfmt(k0)}'))
+
+    def classify(bp):
+        is_req = hit = M = None
+        for t in bp.tests():
+            term, outcome = t[1], t[2]
+            if isinstance(term, tuple) and term[0] == 'CMP' and len(term) == 4 and len(term[1]) == 1:
+                op, a, b = term[1][0], term[2], term[3]
+                if {a, b} == {tag, CALLC} and op in ('Eq', 'NotEq', 'Is', 'IsNot'):
+                    is_req = outcome if op in ('Eq', 'Is') else not outcome
+                elif op in ('In', 'NotIn') and a == R:
+                    M, hit = b, (outcome if op == 'In' else not outcome)
+                elif op in ('Is', 'IsNot') and ('CONST', 'None') in (a, b):
+                    g = a if b == ('CONST', 'None') else b
+                    if isinstance(g, tuple) and g[:1] == ('CALL',) and isinstance(g[1], tuple) \
+                            and g[1][:1] == ('ATTR',) and g[1][2] == 'get' and g[2:] == (R,):
+                        M, hit = g[1][1], ((not outcome) if op == 'Is' else outcome)
+        return is_req, hit, M
+    kinds = {'complete': [], 'hit': [], 'miss': [], 'other': []}
+    memo = set()
+    for bp in body:
+        is_req, hit, M = classify(bp)
+        if M is not None:
+            memo.add(M)
+        if is_req is None:
+            kinds['other'].append(bp)
+        elif not is_req:
+            kinds['complete'].append(bp)
+        elif hit is None:
+            kinds['other'].append(bp)
+        else:
+            kinds['hit' if hit else 'miss'].append(bp)
+    if kinds['other']:
+        raise AnalysisError(f'{what}: a path through the driver loop is neither completion, memo hit nor memo '
+                            f'miss: {kinds["other"][0].describe()[:300]}')
+    if len(memo) != 1:
+        raise AnalysisError(f'{what}: expected one memo table, found {sorted(map(repr, memo))}')
+    M = next(iter(memo))
+    r.M, r.kinds = M, kinds
+
+    def simulate(bp):
+        """-> (old entries popped, entries pushed, final key, final generator)"""
+        popped, pushed = 0, []
+        for st in bp.steps:
+            if st[0] != 'E':
+                continue
+            if st[1] == 'call:pop' and st[2] == S:
+                if st[3] != ():
+                    raise AnalysisError(f'{what}: the stack is popped with an argument')
+                if pushed:
+                    pushed.pop()
+                else:
+                    popped += 1
+            elif st[1] == 'call:append' and st[2] == S:
+                pushed.append(st[3][0] if st[3] else None)
+            elif st[1].startswith('call:') and st[2] == S and st[1] not in ('call:pop', 'call:append'):
+                raise AnalysisError(f'{what}: the stack is changed by .{st[1][5:]}()')
+        return popped, pushed, bp.env.get(kname), bp.env.get(gname)
+
+    def gens(bp):
+        out = []
+        for st in bp.steps:
+            for t in ([st[3]] if st[0] == 'E' else [st[1]] if st[0] == 'X' else []):
+                for x in P.subterms(t):
+                    if isinstance(x, tuple) and x[:1] == ('CALL',) and len(x) >= 2 and x[1] == ('SUB', R, ('CONST', '1')) \
+                            and x not in out:
+                        out.append(x)
+        return out
+    for bp in kinds['complete']:
+        popped, pushed, kf, gf = simulate(bp)
+        ok_store = [e for e in bp.events('substore') if e[2] == ('SUB', M, KV) and e[3] == R]
+        if not ok_store:
+            bad.append(('C07-memo-store', f'{what}: on the completion branch the finished result is not stored in '
+                                          f'the memo under the key of the finished frame'))
+        if gens(bp):
+            bad.append(('C07-gen-create', f'{what}: a generator is created on the completion branch'))
+        if pushed:
+            bad.append(('C07-stack', f'{what}: completion branch pushes a frame'))
+        leaves = bp.end and bp.end[0] in ('break', 'return')
+        if leaves:
+            empty = any((not t[2]) and t[1] == S for t in bp.tests())
+            if not empty or popped:
+                bad.append(('C07-stack', f'{what}: the driver loop is left on completion without the list of suspended '
+                                         f'frames being empty'))
+            continue
+        # the frame below becomes the active one
+        pop_terms = [st[3] for st in bp.steps if st[0] == 'E' and st[1] == 'assign'
+                     and isinstance(st[3], tuple) and st[3][:1] == ('UNPACK',)
+                     and st[3][1] == ('CALL', ('ATTR', S, 'pop'))]
+        want_k, want_g = ('UNPACK', ('CALL', ('ATTR', S, 'pop')), 0), ('UNPACK', ('CALL', ('ATTR', S, 'pop')), 1)
+        if popped != 1 or (kf, gf) != (want_k, want_g):
+            bad.append(('C07-stack', f'{what}: after completion the active frame becomes ({P.tfmt(kf)}, {P.tfmt(gf)}) '
+                                     f'with {popped} frame(s) popped; expected the frame popped from the list of '
+                                     f'suspended callers (key, generator in the order they are pushed)'))
+        if bp.env.get(v) != R:
+            bad.append(('C07-replay', f'{what}: after completion the value handed to the parent is '
+                                      f'{P.tfmt(bp.env.get(v))}, expected the completed result itself'))
+    for bp in kinds['hit']:
+        popped, pushed, kf, gf = simulate(bp)
+        if popped or pushed or (kf, gf) != (KV, GV):
+            bad.append(('C07-replay', f'{what}: memo hit branch changes the frames'))
+        if bp.env.get(v) not in (('SUB', M, R), ('CALL', ('ATTR', M, 'get'), R)):
+            bad.append(('C07-replay', f'{what}: on a memo hit the replayed value is {P.tfmt(bp.env.get(v))}, expected '
+                                      f'the stored object {P.tfmt(("SUB", M, R))}'))
+        if gens(bp):
+            bad.append(('C07-gen-create', f'{what}: a generator is created although the request was memoised'))
+        if any(e for e in bp.events('substore')):
+            bad.append(('C07-replay', f'{what}: memo hit branch stores into the memo'))
+    if not kinds['hit']:
+        bad.append(('C07-memo-lookup', f'{what}: no memo-hit branch'))
+    if not kinds['miss']:
+        bad.append(('C07-gen-create', f'{what}: no branch starts a generator for an unseen request'))
+    if not kinds['complete']:
+        bad.append(('C07-memo-store', f'{what}: no completion branch found'))
+    for bp in kinds['miss']:
+        popped, pushed, kf, gf = simulate(bp)
+        g = gens(bp)
+        if len(g) != 1:
+            bad.append(('C07-gen-create', f'{what}: memo-miss branch creates {len(g)} generators'))
+            continue
+        if not is_frame(R, g[0], uses_context):
+            bad.append(('C07-gen-create', f'{what}: the generator for a request is started as {P.tfmt(g[0])}; expected '
+                                          f'request[1]({"_ctx, " if uses_context else ""}text, request[2])'))
+        if popped or pushed != [('TUPLE', KV, GV)]:
+            bad.append(('C07-stack', f'{what}: memo-miss branch suspends {[P.tfmt(x) for x in pushed]}; expected exactly '
+                                     f'the active frame (key, generator)'))
+        if kf != R or gf not in (g[0],):
+            bad.append(('C07-memo-key', f'{what}: the new active frame is ({P.tfmt(kf)}, {P.tfmt(gf)}); its key must be '
+                                        f'the request tuple itself, paired with the generator started for it'))
+        if bp.env.get(v) != ('CONST', 'None'):
+            bad.append(('C07-gen-create', f'{what}: a freshly created generator is first sent '
+                                          f'{P.tfmt(bp.env.get(v))}, expected None'))
+        if any(e for e in bp.events('substore')):
+            bad.append(('C07-replay', f'{what}: memo miss branch stores into the memo'))
+    # the key is not changed between the send and the store: it is only assigned where a frame changes
+    memo_local_rules(fn, r, body, M, what, bad)
+    # the variable that holds the outcome when the loop is left (for the exit rules of C08)
+    rvars = {st[2] for bp in body for st in bp.steps if st[0] == 'E' and st[1] == 'assign' and st[3] == R}
+    r.final = {('PHI', x, lid) for x in rvars | {v}}
+    return r, bad, {'paths': len(paths), 'loop_paths': len(body)}
+
+
 def analyse(fn, call_const, uses_context, what):
     """-> (roles, findings[(rule, message)], stats)"""
     E = P.Enumerator()
@@ -104,10 +336,10 @@ def analyse(fn, call_const, uses_context, what):
                 and isinstance(init_entry[1], tuple) and init_entry[1][0] == 'TUPLE' and len(init_entry[1]) == 3:
             gi = 1 if init_entry[1][2] in (G, ('OBJ', G[1]), ('VAR', G[1])) or True else 0
         elif init_entry in (('LIST',), ('CALL', ('VAR', 'list'))):
-            # the running frame is kept outside the list (which holds suspended callers only): a
-            # representation these rules were not written for - refuse rather than guess
-            raise AnalysisError(f'{what}: the driver keeps the running generator outside its stack (the stack '
-                                f'starts empty): frame representation not covered by the C07 rules')
+            # the running frame is kept in two loop-carried variables, the list holds the suspended
+            # callers only: analysed by `active_outside` below (logical stack = list ++ [active frame])
+            r.R, r.G, r.S, r.v = R, G, S, v
+            return active_outside(fn, r, paths, loop, body, R, G, S, v, CALLC, uses_context, what, bad)
         carried[G[1]] = gi
         K = None
     else:
@@ -346,44 +578,7 @@ def analyse(fn, call_const, uses_context, what):
         if bp.env.get(v) != ('CONST', 'None'):
             bad.append(('C07-gen-create', f'{what}: a freshly created generator is first sent '
                                           f'{P.tfmt(bp.env.get(v))}, expected None'))
-    # memo object: created once, before the loop, a fresh dict, local, never rebound or cleared
-    if M is not None:
-        if not (isinstance(M, tuple) and M[0] == 'OBJ'):
-            bad.append(('C07-memo-local', f'{what}: the memo {P.tfmt(M)} is not a local object of the driver'))
-        else:
-            mname = M[1]
-            assigns = []
-            for n in ast.walk(fn):
-                if isinstance(n, ast.Assign):
-                    for t in n.targets:
-                        for x in ast.walk(t):
-                            if isinstance(x, ast.Name) and x.id == mname and isinstance(x.ctx, ast.Store):
-                                assigns.append(n)
-                if isinstance(n, (ast.Global, ast.Nonlocal)) and mname in n.names:
-                    bad.append(('C07-memo-local', f'{what}: memo {mname} is declared global/nonlocal'))
-            if mname in [a.arg for a in fn.args.args + fn.args.kwonlyargs]:
-                bad.append(('C07-memo-local', f'{what}: memo {mname} is a parameter (shared default)'))
-            top = [n for n in fn.body if n in assigns]
-            if len(assigns) != 1 or len(top) != 1:
-                bad.append(('C07-memo-local', f'{what}: memo {mname} is assigned {len(assigns)} times; it must '
-                                              f'be created exactly once per call, outside the loop'))
-            else:
-                a = top[0]
-                fresh = (isinstance(a.value, ast.Dict) and not a.value.keys) or (
-                    isinstance(a.value, ast.Call) and isinstance(a.value.func, ast.Name)
-                    and a.value.func.id == 'dict' and not a.value.args and not a.value.keywords)
-                if not fresh:
-                    bad.append(('C07-memo-local', f'{what}: memo {mname} is not created as a fresh empty dict '
-                                                  f'({ast.unparse(a.value)[:60]})'))
-                if fn.body.index(a) > fn.body.index(r.loop_node):
-                    bad.append(('C07-memo-local', f'{what}: memo {mname} is created after the loop'))
-            for bp in body:
-                for e in bp.events():
-                    if e[1].startswith('call:') and e[2] == M and e[1] in (
-                            'call:clear', 'call:pop', 'call:popitem', 'call:update', 'call:setdefault'):
-                        bad.append(('C07-memo-local', f'{what}: memo is mutated by .{e[1][5:]}() inside the loop'))
-                    if e[1] == 'del' and isinstance(e[2], tuple) and M in list(P.subterms(e[2])):
-                        bad.append(('C07-memo-local', f'{what}: memo entries are deleted inside the loop'))
+    memo_local_rules(fn, r, body, M, what, bad)
     # initial stack entry: key holds tag, start function and position
     init = None
     for p in paths:
